@@ -127,6 +127,21 @@ CHECKS += [
      "note": "PARTIAL: that the real TL2/JSON writers depend only on the compared attributes is the Tl2/Json families' model, not proved here. Known findings F27a-d (fixed arrays become vectors, size fields no longer enforced, namespace-split whitelists and a dictionary-of-Maybe case produce schemas/Go that do not compile). No axioms."},
 ]
 
+CHECKS += [
+    {"id": "C22",
+     "technique": "Coq proof over executable models of the TL2 printers, lexer and parser (full statement: parse2 (fmt2 o f) = erase f, idempotence) + correspondence with the real Print/ParseTL2File through an in-package overlay harness + Go-side oracle",
+     "text": "For every TL2 file AST satisfying the stated well-formedness (evaluated every run on all ASTs ParseTL2File returns: it holds) and for every option record, print -> lex -> parse returns the declarations with comments erased; for comment-ignoring options printing again gives the same text; comment-free files round-trip exactly. ~9000 ops per run: model fmt2 vs Go Print per declaration and per file, model parse2 vs ParseTL2File on sources, mutations and printed texts, lexer, type expressions.",
+     "note": "Idempotence with comments present under the default options is observed on Go every run, not proved (the parser model erases comments). The token model does not see layout (one known parser layout quirk before a template category is excluded and counted). F8 and F19 were genuine defects, repaired in /repo (3b6a30bc, 2301fcd1); both are kept as historical refuted lemmas and the oracle reports either regression as a fresh violation. No axioms."},
+    {"id": "C38",
+     "technique": "Coq proof over a model of the client's pending-calls logic (all event lists over an unordered, duplicating network) + extracted monitor proved sound + correspondence on the real clientConn (sequential op lists) + trace inclusion of concurrent client/server runs under the race detector",
+     "text": "For all event lists: a completed call holds the answer to its own request or its own local error; completes once; is never lost; Client.Close plus the next disconnect drains everything; a disconnect drains sent/FailIfNoConnection/expired calls; query IDs are distinct; the client's invariant panics are unreachable. ~1000 op lists on the real clientConn per run diffed against the model; 12 concurrent TCP/Unix scenarios (with/without encryption, timeouts, cancels, closes, hash-echo responses) under -race, each log checked by a Python oracle and by the extracted monitor.",
+     "note": "PARTIAL: goroutine scheduling, sockets, timers, the server side of the query-ID plumbing and the absence of data races are observed (race detector), not proved. Fewer than 2^62 calls per client assumed. No axioms."},
+    {"id": "C39",
+     "technique": "Coq proof over models of the worker pool and the request-memory accounting (all op sequences) + correspondence on the real workerPool / acquireRequestSema (sequential) + concurrent bursts against a real server",
+     "text": "For all op sequences: handed-out workers <= created <= max(1, MaxWorkers); Get waits exactly at the limit and a Put unblocks it; accounted memory equals the sum held by admitted requests and stays within [0, limit]; requests larger than the limit are never admitted; a release never panics. 800 pool op lists + 80 accounting lists per run on the real code; 7 bursts (1560 requests) with MaxWorkers in {1,2,4} and small limits check handler concurrency, Server.RequestsMemory(), an independent handler-side byte sum, and that all requests are served.",
+     "note": "PARTIAL: goroutines, sync.Cond and the real semaphore (C42) are observed only. SyncHandler and MaxWorkers = 0 run on the connection goroutine and are outside the worker bound. No axioms."},
+]
+
 _claimed = {c["id"] for c in CHECKS}
 _reasons = {
     "C32": "PHP serializers: no PHP/KPHP interpreter exists in the sandbox and nothing can be installed, so generated PHP cannot be executed; neither a correspondence check nor a failing-input search can exist (DESIGN.md section 8)",
